@@ -374,3 +374,27 @@ func (n *Node) SentBy() []*SentMsg {
 	}
 	return out
 }
+
+// Entry returns the callbacks the service registered, read under the world lock
+// (for tests that call them from several goroutines).
+func (n *Node) Entry() (handler func(string, string, []byte) error, pay func(string, swap.InvoiceType),
+	conf map[string]func(string, string, error) error, csv map[string]func(string) error) {
+	n.W.mu.Lock()
+	defer n.W.mu.Unlock()
+	conf = map[string]func(string, string, error) error{}
+	csv = map[string]func(string) error{}
+	for k, v := range n.confCb {
+		conf[k] = v
+	}
+	for k, v := range n.csvCb {
+		csv[k] = v
+	}
+	return n.handler, n.payCb, conf, csv
+}
+
+// SentCount returns the number of messages handed to the transport so far.
+func (w *World) SentCount() int {
+	w.mu.Lock()
+	defer w.mu.Unlock()
+	return len(w.Sent)
+}
